@@ -137,6 +137,22 @@ inline const std::vector<Op> &ops() {
         { "crypto_aead_aes256gcm_encrypt", SLP(32 + n), [](size_t n) { B().sink = crypto_aead_aes256gcm_encrypt(B().out, nullptr, B().secret + 32, n, B().pub + 32, 13, nullptr, B().pub, B().secret); }, true, "bytes", 600 },
         { "crypto_aead_aegis128l_encrypt", SLP(16 + n), [](size_t n) { B().sink = crypto_aead_aegis128l_encrypt(B().out, nullptr, B().secret + 16, n, B().pub + 32, 13, nullptr, B().pub, B().secret); }, true, "bytes", 600 },
         { "crypto_aead_aegis256_encrypt", SLP(32 + n), [](size_t n) { B().sink = crypto_aead_aegis256_encrypt(B().out, nullptr, B().secret + 32, n, B().pub + 32, 13, nullptr, B().pub, B().secret); }, true, "bytes", 600 },
+        // ---- verification of attacker-supplied tags under a secret key, in the forms that return the comparison result without
+        //      branching on it inside the library (verify-only AEAD decryption with m == NULL, MAC verification): the comparison of the
+        //      key-derived tag with the supplied one must not leak how many bytes match.  public: nonce = pub[0..32), ad = pub[32..45),
+        //      tag = pub[48..80), ciphertext / message = pub[128..128+n)
+        { "crypto_aead_chacha20poly1305_decrypt_detached(m=NULL)", SL(32), [](size_t n) { B().sink = crypto_aead_chacha20poly1305_decrypt_detached(nullptr, nullptr, B().pub + 128, n, B().pub + 48, B().pub + 32, 13, B().pub, B().secret); }, false, "bytes", 300 },
+        { "crypto_aead_chacha20poly1305_ietf_decrypt_detached(m=NULL)", SL(32), [](size_t n) { B().sink = crypto_aead_chacha20poly1305_ietf_decrypt_detached(nullptr, nullptr, B().pub + 128, n, B().pub + 48, B().pub + 32, 13, B().pub, B().secret); }, false, "bytes", 300 },
+        { "crypto_aead_xchacha20poly1305_ietf_decrypt_detached(m=NULL)", SL(32), [](size_t n) { B().sink = crypto_aead_xchacha20poly1305_ietf_decrypt_detached(nullptr, nullptr, B().pub + 128, n, B().pub + 48, B().pub + 32, 13, B().pub, B().secret); }, false, "bytes", 300 },
+        { "crypto_aead_xchacha20poly1305_ietf_decrypt(m=NULL)", SL(32), [](size_t n) { B().sink = crypto_aead_xchacha20poly1305_ietf_decrypt(nullptr, nullptr, nullptr, B().pub + 128, n + 16, B().pub + 32, 13, B().pub, B().secret); }, false, "bytes", 300 },
+        { "crypto_aead_aes256gcm_decrypt_detached(m=NULL)", SL(32), [](size_t n) { B().sink = crypto_aead_aes256gcm_decrypt_detached(nullptr, nullptr, B().pub + 128, n, B().pub + 48, B().pub + 32, 13, B().pub, B().secret); }, true, "bytes", 300 },
+        { "crypto_aead_aes256gcm_decrypt(m=NULL)", SL(32), [](size_t n) { B().sink = crypto_aead_aes256gcm_decrypt(nullptr, nullptr, nullptr, B().pub + 128, n + 16, nullptr, 0, B().pub, B().secret); }, true, "bytes", 300 },
+        { "crypto_aead_aegis128l_decrypt_detached(m=NULL)", SL(16), [](size_t n) { B().sink = crypto_aead_aegis128l_decrypt_detached(nullptr, nullptr, B().pub + 128, n, B().pub + 48, B().pub + 32, 13, B().pub, B().secret); }, true, "bytes", 300 },
+        { "crypto_aead_aegis256_decrypt_detached(m=NULL)", SL(32), [](size_t n) { B().sink = crypto_aead_aegis256_decrypt_detached(nullptr, nullptr, B().pub + 128, n, B().pub + 48, B().pub + 32, 13, B().pub, B().secret); }, true, "bytes", 300 },
+        { "crypto_auth_verify", SL(32), [](size_t n) { B().sink = crypto_auth_verify(B().pub + 48, B().pub + 128, n, B().secret); }, false, "bytes", 300 },
+        { "crypto_auth_hmacsha256_verify", SL(32), [](size_t n) { B().sink = crypto_auth_hmacsha256_verify(B().pub + 48, B().pub + 128, n, B().secret); }, false, "bytes", 300 },
+        { "crypto_auth_hmacsha512_verify", SL(32), [](size_t n) { B().sink = crypto_auth_hmacsha512_verify(B().pub + 48, B().pub + 128, n, B().secret); }, false, "bytes", 300 },
+        { "crypto_onetimeauth_verify", SL(32), [](size_t n) { B().sink = crypto_onetimeauth_verify(B().pub + 48, B().pub + 128, n, B().secret); }, false, "bytes", 300 },
 #ifdef CT_VALGRIND_OPS
         // ---- password hashing (definedness monitor only): Argon2i is data-independent throughout, Argon2id in pass 0 slices 0-1
         { "crypto_pwhash(argon2i, 8 KiB)", SLP(n), [](size_t n) { B().sink = crypto_pwhash(B().out, 32, (const char *) B().secret, n, B().pub, 3, 8192, crypto_pwhash_ALG_ARGON2I13); }, false, "bytes", 64, true },
